@@ -9,6 +9,7 @@ import (
 	"context"
 	"errors"
 	"fmt"
+	"io"
 	"os"
 	"path/filepath"
 	"runtime"
@@ -25,6 +26,10 @@ import (
 )
 
 var errInjected = errors.New("injected callback failure")
+
+// cbErrs: the error a failing callback returns - its own, or one of the sentinels the ingester itself deals with
+// (end of file, a cancelled context, a closed file). Whatever it is, it comes back unchanged.
+var cbErrs = []error{errInjected, io.EOF, context.Canceled, os.ErrClosed, io.ErrUnexpectedEOF}
 
 func scratchDir() string {
 	d := os.Getenv("VERIF_BUILD")
@@ -50,6 +55,7 @@ type result struct {
 	ret     error
 	hung    bool
 	latency time.Duration
+	want    error // the error the failing callback returned (nil: errInjected)
 }
 
 // feed runs the real ingester on a fresh FIFO, writes chunks (each a separate
@@ -66,12 +72,25 @@ func feedPaused(path string, delim byte, chunks []string, failAt int, pause time
 // feedOpt: with cancelOnFail the failing callback also finds (makes) the ingester's context cancelled before it
 // returns its error - the situation of a worker whose sibling failed at the same moment.
 func feedOpt(path string, delim byte, chunks []string, failAt int, pause time.Duration, cancelOnFail bool) result {
+	return feedOn(nil, path, delim, chunks, failAt, pause, cancelOnFail)
+}
+
+// feedOn: with a non-nil ingester the stream is served by that (already used) ingester value.
+func feedOn(reuse *namedpipe.NamedPipeIngester, path string, delim byte, chunks []string, failAt int, pause time.Duration, cancelOnFail bool, errK ...int) result {
+	cbErr := errInjected
+	if len(errK) > 0 {
+		cbErr = cbErrs[errK[0]]
+	}
 	_ = os.Remove(path)
 	if err := syscall.Mkfifo(path, 0o600); err != nil {
 		panic(err)
 	}
 	defer os.Remove(path)
-	npi := namedpipe.NewNamedPipeIngester(mc.DebugLogger(), health.NewHealth())
+	fresh := namedpipe.NewNamedPipeIngester(mc.DebugLogger(), health.NewHealth())
+	npi := &fresh
+	if reuse != nil {
+		npi = reuse
+	}
 	var res result
 	done := make(chan struct{})
 	ctx, cancel := context.WithCancel(context.Background())
@@ -85,7 +104,7 @@ func feedOpt(path string, delim byte, chunks []string, failAt int, pause time.Du
 					runtime.Gosched() // let whatever reacts to the cancellation (closing the pipe) run first
 					time.Sleep(time.Millisecond)
 				}
-				return errInjected
+				return cbErr
 			}
 			return nil
 		})
@@ -166,8 +185,12 @@ func judge(stream string, delim byte, failAt int, r result) string {
 		}
 	}
 	if failAt > 0 && failAt <= len(ref) {
-		if r.ret != errInjected {
-			return fmt.Sprintf("the callback's error was returned as %v, want it unchanged", r.ret)
+		want := r.want
+		if want == nil {
+			want = errInjected
+		}
+		if r.ret != want {
+			return fmt.Sprintf("the callback's error %q was returned as %v, want it unchanged", want, r.ret)
 		}
 		return ""
 	}
@@ -201,6 +224,8 @@ type job struct {
 	class  string
 	pause  time.Duration // sleep between the writes (a writer that stalls mid-record)
 	cancel bool          // the failing callback finds the context cancelled when it returns its error
+	first  string        // if set: this stream was served first, to its end, by the same ingester value
+	errK   int           // index into cbErrs of the error the failing callback returns
 }
 
 func (j job) parts() []string {
@@ -242,12 +267,21 @@ func runC12(run *mc.Run) int {
 			Delim  int      `json:"delim"`
 			FailAt int      `json:"fail_at"`
 			Cancel bool     `json:"cancel_on_fail"`
+			First  string   `json:"first_stream"`
+			ErrK   int      `json:"err_kind"`
 		}
 		if _, err := mc.LoadReplay(run.Replay, &rp); err != nil || rp.Delim == 0 {
 			fmt.Println("cannot load replay:", err)
 			return 2
 		}
-		r := feedOpt(filepath.Join(dir, "replay"), byte(rp.Delim), rp.Writes, rp.FailAt, 0, rp.Cancel)
+		var npi *namedpipe.NamedPipeIngester
+		if rp.First != "" {
+			x := namedpipe.NewNamedPipeIngester(mc.DebugLogger(), health.NewHealth())
+			npi = &x
+			_ = feedOn(npi, filepath.Join(dir, "replay"), byte(rp.Delim), chunkBy(rp.First, 4096), 0, 0, false)
+		}
+		r := feedOn(npi, filepath.Join(dir, "replay"), byte(rp.Delim), rp.Writes, rp.FailAt, 0, rp.Cancel, rp.ErrK)
+		r.want = cbErrs[rp.ErrK]
 		m := judge(strings.Join(rp.Writes, ""), byte(rp.Delim), rp.FailAt, r)
 		fmt.Printf("writes %q fail_at=%d cancel_on_fail=%v: callbacks %q returned %v: %s\n", short(rp.Writes), rp.FailAt, rp.Cancel, short(r.calls), r.ret, m)
 		if m != "" {
@@ -273,7 +307,17 @@ func runC12(run *mc.Run) int {
 					continue // the ingester no longer returns at end-of-stream: already reported
 				}
 				parts := j.parts()
-				r := feedOpt(path, j.delim, parts, j.failAt, j.pause, j.cancel)
+				var r result
+				if j.first != "" {
+					// the ingester value is used again after a stream that ended in the middle of a record: nothing
+					// of the earlier stream may show up in the records of this one
+					npi := namedpipe.NewNamedPipeIngester(mc.DebugLogger(), health.NewHealth())
+					_ = feedOn(&npi, path, j.delim, chunkBy(j.first, 4096), 0, 0, false)
+					r = feedOn(&npi, path, j.delim, parts, j.failAt, j.pause, j.cancel, j.errK)
+				} else {
+					r = feedOn(nil, path, j.delim, parts, j.failAt, j.pause, j.cancel, j.errK)
+				}
+				r.want = cbErrs[j.errK]
 				if r.hung {
 					atomic.AddInt64(&hangs, 1)
 				}
@@ -289,7 +333,7 @@ func runC12(run *mc.Run) int {
 				smu.Unlock()
 				if m := judge(j.stream, j.delim, j.failAt, r); m != "" {
 					run.Violation("C12:"+j.class+":"+strings.Join(strings.Fields(m)[:2], "_"),
-						map[string]any{"writes": parts, "delim": int(j.delim), "fail_at": j.failAt, "cancel_on_fail": j.cancel},
+						map[string]any{"writes": parts, "delim": int(j.delim), "fail_at": j.failAt, "cancel_on_fail": j.cancel, "first_stream": j.first, "err_kind": j.errK},
 						fmt.Sprintf("stream written as %d writes %q (delimiter %q, callback failing at %d): %s", len(parts), short(parts), j.delim, j.failAt, m))
 				}
 			}
@@ -343,6 +387,9 @@ func runC12(run *mc.Run) int {
 		for k := 1; k <= 5; k++ {
 			for _, cs := range []int{1, 2, 3, len(s)} {
 				emit(job{stream: s, chunks: chunkBy(s, cs), delim: '\n', failAt: k, class: "callback-error"})
+				for ek := 1; ek < len(cbErrs); ek++ {
+					emit(job{stream: s, chunks: chunkBy(s, cs), delim: '\n', failAt: k, class: "callback-error-sentinel", errK: ek})
+				}
 				if cs == 1 || cs == len(s) {
 					// ... and the same with the context cancelled by the time the callback returns its error:
 					// the error is still the callback's own
@@ -361,13 +408,20 @@ func runC12(run *mc.Run) int {
 			emit(job{stream: strings.Join(cs, ""), chunks: cs, delim: '\n', class: "paused-writer", pause: pz})
 		}
 	}
+	// (3c) a second stream served by the same ingester value after one that ended mid-record
+	for _, tail := range []int{1, 100, 4095, 4096, 4097, 5000, 12288, 70000} {
+		first := "head\n" + strings.Repeat("t", tail)
+		for _, s := range []string{"gamma\ndelta\n", "g\n", strings.Repeat("z", 5000) + "\nafter\n"} {
+			emit(job{stream: s, chunks: chunkBy(s, 4096), delim: '\n', class: "second-stream-on-a-reused-ingester", first: first})
+		}
+	}
 	// (4) empty stream / only a tail
 	emit(job{stream: "", chunks: []string{}, delim: '\n', class: "edge"})
 	emit(job{stream: "tail-only", chunks: []string{"tail", "-only"}, delim: '\n', class: "edge"})
 	close(jobs)
 	wg.Wait()
 	cov := mc.Coverage{Level: "exploration", Evaluations: int(evals), Distinct: int(multi), Exhaustive: complete && skipped == 0, Samples: samples,
-		Rule:  fmt.Sprintf("the real NamedPipeIngester.Ingest on real FIFOs: every byte stream over {a,b,delimiter} of length <=%d x every one of the 2^(len-1) partitions into write(2) calls (FIONREAD handshake: each write is drained before the next), delimiters \\n and NUL; records of 4095..70000 bytes x chunk sizes {1,2,4095,4096,4097,whole}; a callback error at each record index; writers that pause 0.3 s (thorough: 1.5 s, 5 s) between their writes, mid-record; unterminated tails and the empty stream. Oracle (partition-independent): callback arguments = the delimiter-terminated records in order (one trailing delimiter allowed), nothing after the last delimiter, callback error returned unchanged, end-of-stream returned as an error. distinct_nontrivial = runs whose stream was split over >=2 writes", n),
+		Rule:  fmt.Sprintf("the real NamedPipeIngester.Ingest on real FIFOs: every byte stream over {a,b,delimiter} of length <=%d x every one of the 2^(len-1) partitions into write(2) calls (FIONREAD handshake: each write is drained before the next), delimiters \\n and NUL; records of 4095..70000 bytes x chunk sizes {1,2,4095,4096,4097,whole}; a callback error at each record index (the callback's own error, io.EOF, context.Canceled, os.ErrClosed, io.ErrUnexpectedEOF; also with the context cancelled by the time the callback returns); a second stream served by the same ingester value after one that ended with an unterminated tail of 1..70000 bytes; writers that pause 0.3 s (thorough: 1.5 s, 5 s) between their writes, mid-record; unterminated tails and the empty stream. Oracle (partition-independent): callback arguments = the delimiter-terminated records in order (one trailing delimiter allowed), nothing after the last delimiter, callback error returned unchanged, end-of-stream returned as an error. distinct_nontrivial = runs whose stream was split over >=2 writes", n),
 		Extra: map[string]any{"runs_per_class": classes, "max_stream_len": n}}
 	cov.Assumptions = []string{"kernel FIFO semantics; a write larger than the pipe buffer may be split by the kernel (affects only which partition was exercised, not the verdict)"}
 	return run.Finish(cov)
